@@ -93,7 +93,7 @@ package dns
 //@   ensures bs != nil ==> ret0 == (end - off == 1 && bs[off] == '.')
 //@   pure
 
-//@ func packDomainName [C03 C04]
+//@ func packDomainName [C03 C04 C08]
 //@   requires 0 <= off
 //@   writes msg
 //@   ensures empty: len(s) == 0 ==> err == nil && off1 == off
@@ -102,6 +102,9 @@ package dns
 //@   ensures acc:   !compress && err == nil && len(s) > 0 ==> ns63(s, 0, 0, false)
 //@   ensures rng:   err == nil && len(s) > 0 ==> off <= off1 && off1 <= len(msg)
 //@   ensures lim255: !compress && err == nil && len(s) > 0 ==> validname(s)
+//@   ensures wlen:  !compress && err == nil && len(s) > 0 && !isdot(s) ==> off1 - off == nswire(s, 0, 0, 0) + 1 && off1 - off == unitsfrom(s, 0) + 1 [C08]
+//@   ensures wroot: err == nil && isdot(s) ==> off1 - off == 1 [C08]
+//@   apply at "if isRootLabel(s, bs, 0, ls) {" nswire_units(s, 0, 0, 0)
 //@   ensures conv:  len(s) > 0 && IsFqdnSpec(s) && ns63(s, 0, 0, false) && off + nswire(s, 0, 0, 0) + (isdot(s) ? 0 : 1) <= len(msg) ==> err == nil
 //@   assert at "ls -= 3" shift3: forall k in i+1..ls-3 :: bs[k] == s[k + compOff + 3]
 //@   assert at "ls--" shift1: forall k in i..ls-1 :: bs[k] == s[k + compOff + 1]
@@ -110,7 +113,7 @@ package dns
 //@   apply at "if off+1 > len(msg)" nswire_ge(s, i + compOff, i - begin, off - old(off))
 //@   apply at "if off+1+labelLen > len(msg)" nswire_ge(s, i + compOff, i - begin, off - old(off))
 //@   loop 1 invariant 0 <= i && i <= ls && 0 <= begin && begin <= i && 0 <= compOff && ls + compOff == len(s) && old(off) <= off && IsFqdnSpec(s)
-//@   loop 1 invariant bsnil: (bs == nil ==> compOff == 0) && (bs != nil ==> len(bs) == len(s) && compOff >= 1) && fresh(bs) && (compOff > 0 ==> i > 0)
+//@   loop 1 invariant bsnil: (bs == nil ==> compOff == 0) && (bs != nil ==> len(bs) == len(s) && compOff >= 1) && fresh(bs) && (compOff > 0 ==> i > 0 && ls >= 2)
 //@   loop 1 invariant tail:  bs != nil ==> (forall k in i..ls :: bs[k] == s[k + compOff])
 //@   loop 1 invariant cb:     0 <= compBegin && compBegin <= begin + compOff
 //@   loop 1 invariant lab:    i == begin ==> (wasDot || i == 0)
